@@ -253,7 +253,29 @@ def rule_dispatch(ctx: Ctx) -> None:
             a = calls[0].args + list(calls[0].kwargs.values())
             ctx.check(len(a) == 1 and strip_v(U(a[0])).endswith("evaluation_task"), "C14-dispatch", "LabelConverter.__init__", "task-arg",
                       f"traffic-light table built with {[U(x) for x in a]} instead of the evaluation task", fi=fi)
+    if seen != set(want):
+        # a supported prefix whose branch raises / a branch taken for the wrong prefix
+        for p in paths:
+            pref = [k.split("==", 1)[1] for k, v in p.conds if v and k.startswith("eq:label_prefix==")]
+            if pref and pref[0] in want and p.exit and p.exit[0] == "raise":
+                ctx.violate("C14-dispatch", "LabelConverter.__init__", f"{pref[0]}:rejected", f"the supported label prefix {pref[0]} raises {p.exit[1]}", fi=fi)
+                seen.add(pref[0])
+            neg = [k.split("==", 1)[1] for k, v in p.conds if (not v) and k.startswith("eq:label_prefix==")]
+            tbl = [e.name for e in p.effects if e.kind == "call" and e.name.startswith("_get_")]
+            for key in neg:
+                if key in want and tbl == [want[key][1]] and not pref:
+                    ctx.violate("C14-dispatch", "LabelConverter.__init__", f"{key}:inverted", f"the table {tbl[0]} of prefix {key} is selected when the prefix is NOT {key}", fi=fi)
+                    seen.add(key)
     ctx.require(seen == set(want), f"LabelConverter.__init__: prefix dispatch not recognised (saw {sorted(seen)})")
+    # the table rows are (label, name) pairs and LabelInfo(label, name) keeps them that way round
+    infos = [n for n in ast.walk(fi.node) if isinstance(n, ast.ListComp) and isinstance(n.elt, ast.Call) and U(n.elt.func) == "LabelInfo"]
+    ctx.require(len(infos) == 1 and len(infos[0].generators) == 1, "LabelConverter.__init__: construction of label_infos not recognised")
+    g = infos[0].generators[0]
+    tnames = [U(x) for x in g.target.elts] if isinstance(g.target, ast.Tuple) else []
+    cargs = [U(a) for a in infos[0].elt.args] + [f"{k.arg}={U(k.value)}" for k in infos[0].elt.keywords]
+    ok_info = len(tnames) == 2 and (cargs == tnames or sorted(cargs) == sorted([f"label={tnames[0]}", f"name={tnames[1]}"])) and strip_v(U(g.iter)) == "pair_list" and not g.ifs
+    ctx.check(ok_info, "C14-dispatch", "LabelConverter.__init__", "label-infos", f"label_infos = [LabelInfo({', '.join(cargs)}) for {', '.join(tnames)} in {U(g.iter)}{' if ...' if g.ifs else ''}]; "
+              "every (label, name) pair of the table must become LabelInfo(label, name)", fi=fi, expected="[LabelInfo(label, name) for label, name in pair_list]", found=U(infos[0])[:160])
     # every unknown prefix raises
     for p in paths:
         if all(not (k.startswith("eq:label_prefix==") and v) for k, v in p.conds) and any(k.startswith("eq:label_prefix==") for k, _ in p.conds):
@@ -264,6 +286,20 @@ def rule_dispatch(ctx: Ctx) -> None:
     ctx.paths_enumerated += len(paths)
     for p in paths:
         rv = strip_v(U(p.retval)) if p.retval is not None else ""
+        cdt = {strip_v(k).replace(" ", ""): v for k, v in p.conds}
+        N = cdt.get("none:target_labels")
+        E = cdt.get("eq:len(target_labels)==0")
+        if E is None and cdt.get("truthy:target_labels") is not None:
+            E = not cdt.get("truthy:target_labels")
+            if N is None:
+                N = E  # `not target_labels` covers both
+        if p.exit == ("return",):
+            out_all = "label_converter.label_type" in rv and "convert_" not in rv
+            for n_ in ([N] if N is not None else [True, False]):
+                for e_ in ([E] if E is not None else ([False] if n_ else [True, False])):
+                    want_all = bool(n_ or e_)
+                    ctx.check(out_all == want_all, "C14-targets", "set_target_lists", f"all-iff-absent:none={int(bool(n_))},empty={int(bool(e_))}",
+                              f"with target names {'None' if n_ else 'empty' if e_ else 'given'} the function returns `{rv[:80]}`; all labels exactly when no name is given, otherwise the named ones", fi=st)
         given = any(k.startswith("truthy:target_labels") and v for k, v in p.conds) or any(k == "none:target_labels" and not v for k, v in p.conds) and "convert" in rv
         if "for name in target_labels" in rv or "convert_" in rv:
             ctx.check("label_converter.convert_name(name)" in rv, "C14-targets", "set_target_lists", "mapping",
